@@ -85,6 +85,9 @@ func (c UDPCase) relaxed() bool {
 const (
 	peerRTPPort  = 35000 // ports of the raw publisher / player (nobody listens: what the server sends there is lost)
 	peerRTCPPort = 35001
+	// the raw publisher / player negotiate a NON-consecutive pair: "RTCP port = RTP port + 1" is a
+	// convention, not something a receiver may assume
+	rawRTCPPort = 35005
 	cliRTPPort   = 34000 // ports of the library client (UDPSourcePortRange pins them)
 	cliRTCPPort  = 34001
 	otherRTPPort = 36000 // second session's publisher
@@ -361,6 +364,10 @@ func (w *world) startServer(o sysx.ServerOpts) (*sysx.App, error) {
 }
 
 func (w *world) rawPublisher(path string, rtpPort int) (*sysx.Peer, error) {
+	rtcpPort := rtpPort + 1
+	if rtpPort == peerRTPPort {
+		rtcpPort = rawRTCPPort
+	}
 	p, err := w.env.Dial(nil)
 	if err != nil {
 		return nil, herr("dial: %v", err)
@@ -372,7 +379,7 @@ func (w *world) rawPublisher(path string, rtpPort int) (*sysx.Peer, error) {
 		return nil, err
 	}
 	res, err = p.Do(&base.Request{Method: base.Setup, URL: sysx.MustURL(u + "/trackID=0"), Header: base.Header{
-		"Transport": base.HeaderValue{fmt.Sprintf("RTP/AVP;unicast;client_port=%d-%d;mode=record", rtpPort, rtpPort+1)}}})
+		"Transport": base.HeaderValue{fmt.Sprintf("RTP/AVP;unicast;client_port=%d-%d;mode=record", rtpPort, rtcpPort)}}})
 	if err = mustOK(res, err, "SETUP"); err != nil {
 		return nil, err
 	}
@@ -441,7 +448,7 @@ func (w *world) buildServerRecordRaw() error {
 			return err
 		}
 	}
-	w.srcRTP, w.srcRTCP = peerRTPPort, peerRTCPPort
+	w.srcRTP, w.srcRTCP = peerRTPPort, rawRTCPPort
 	w.timeout, _ = w.c.serverTimeouts()
 	w.serverSideCommon(func() []*description.Media { return w.ss.AnnouncedDescription().Medias })
 	return nil
@@ -575,7 +582,7 @@ func (w *world) buildServerPlay() error {
 	w.closers = append(w.closers, p.Close)
 	u := "rtsp://127.0.0.1:8554/stream"
 	res, err := p.Do(&base.Request{Method: base.Setup, URL: sysx.MustURL(u + "/trackID=0"), Header: base.Header{
-		"Transport": base.HeaderValue{fmt.Sprintf("RTP/AVP;unicast;client_port=%d-%d", peerRTPPort, peerRTCPPort)}}})
+		"Transport": base.HeaderValue{fmt.Sprintf("RTP/AVP;unicast;client_port=%d-%d", peerRTPPort, rawRTCPPort)}}})
 	if err = mustOK(res, err, "SETUP"); err != nil {
 		return err
 	}
@@ -598,7 +605,7 @@ func (w *world) buildServerPlay() error {
 	w.ss = ss[0]
 	// nothing has been sent to the RTCP socket yet; the Inject that follows orders this write before any read
 	w.ss.OnPacketRTCPAny(func(_ *description.Media, p rtcp.Packet) { w.onRTCP(p) })
-	w.srcRTP, w.srcRTCP = peerRTPPort, peerRTCPPort
+	w.srcRTP, w.srcRTCP = peerRTPPort, rawRTCPPort
 	w.hasRTP = false
 	w.legitRTCP = "rr"
 	_, w.timeout = w.c.serverTimeouts()
@@ -740,6 +747,8 @@ func (w *world) resolve(s *Src, target string) *net.UDPAddr {
 		port = 0
 	case "sibling":
 		port = sibling
+	case "rtp+1":
+		port = w.srcRTP + 1
 	case "other-session":
 		port = otherRTPPort
 		if target == "rtcp" {
